@@ -207,9 +207,11 @@ def elementwise(I, op, a, b):
     B = b if isinstance(b, NdArr) else None
     da = A.data if A is not None else to_data(I, a)
     db = B.data if B is not None else to_data(I, b)
-    sa = shape_of(da) if isinstance(da, list) else ()
-    sb = shape_of(db) if isinstance(db, list) else ()
+    sa = A.tail if A is not None and isinstance(da, list) else (shape_of(da) if isinstance(da, list) else ())
+    sb = B.tail if B is not None and isinstance(db, list) else (shape_of(db) if isinstance(db, list) else ())
     tg = bshape(I, sa, sb)
+    if tg and size(tg) == 0:
+        return NdArr(data=build(tg, []), dtype=(A or B).dtype if (A or B) is not None else "float", tail=tg)
     xa = broadcast_to(I, da, sa, tg)
     xb = broadcast_to(I, db, sb, tg)
     if isinstance(op, ast.cmpop):
@@ -292,7 +294,13 @@ def setitem(I, a, idx, v):
         sel_axes.append(list(range(shp[ax])))
     tshape = tuple(len(s) for s in sel_axes if isinstance(s, list))
     dv = v.data if isinstance(v, NdArr) else to_data(I, v)
-    sv = shape_of(dv) if isinstance(dv, list) else ()
+    sv = tuple(v.tail) if isinstance(v, NdArr) and isinstance(dv, list) else (shape_of(dv) if isinstance(dv, list) else ())
+    if size(tshape) == 0 or (sv and size(sv) == 0):
+        bshape(I, sv, tshape)      # shape compatibility still checked; nothing to store
+        if size(tshape) != 0 and bshape(I, sv, tshape) != tshape:
+            I.raise_py("ValueError", f"could not broadcast input array from shape {sv} into shape {tshape}")
+        if size(tshape) == 0:
+            return
     if len(sv) > len(tshape):
         # leading 1-dims may be dropped
         while len(sv) > len(tshape) and sv[0] == 1:
@@ -316,7 +324,7 @@ def setitem(I, a, idx, v):
 
 def inplace(I, op, a, v):
     r = elementwise(I, op, a, v)
-    if r.tail != a.tail:
+    if tuple(r.tail) != tuple(a.tail):
         I.raise_py("ValueError", "non-broadcastable output operand")
     a.data = r.data
     return a
@@ -436,7 +444,9 @@ def dot(I, a, b):
         return mk([[reduce_sum(I, [scalar_op(I, M, a.data[i][k], b.data[k][j]) for k in range(sa[1])]) for j in range(sb[1])]
                    for i in range(sa[0])])
     if len(sa) == 3 and len(sb) == 2:
-        return mk([dot(I, mk(x), b).data for x in a.data])
+        r = mk([dot(I, mk(x), b).data for x in a.data])
+        r.tail = (sa[0], sa[1], sb[1])
+        return r
     raise Unsupported(f"dot of shapes {sa} {sb}")
 
 
